@@ -460,6 +460,7 @@ impl World for JoinWorld {
                 "event ids are assigned by the harness (the library derives them from the real clock)".into(),
                 "a pair is required only if no watermark tick between the arrivals of its two members made the first one evictable".into(),
             ],
+            hang_is_a_verdict: true,
             required_probes: vec![
                 "fault.watermark_tick",
                 "fault.watermark_regress",
